@@ -3,8 +3,8 @@
   What is PROVED universally: the naive routine (`mzd_gauss_delayed` / `mzd_echelonize_naive`, exact mirror
   `BMat.gaussDelayed`) returns rank(A), preserves the row space, leaves a row echelon form and — with full
   reduction — THE reduced row echelon form (unique within a row space); and the executable certificate
-  checker `checkEchelon` is sound. M4RI, the PLUQ-based routine, the density-switching hybrid and the top
-  reduction are NOT mirrored step by step: every one of their outputs in the correspondence runs is
+  checker `checkEchelon` is sound. M4RI and the top reduction have exact mirrors with universal theorems (below); the PLUQ-based routine and the
+  density-switching hybrid are NOT mirrored step by step: every one of their outputs in the correspondence runs is
   compared with `rref`/`rank` (full) or judged by `checkEchelon` (non-full) — per-input certification by a
   proven-sound checker, labelled as such (`…_partial` below).
   `SameSpan`, `isRowEchelon`, `isRREF`, `rank` are tied to Mathlib's `Submodule.span`, `Matrix.IsRowEchelon`,
@@ -12,6 +12,7 @@
 -/
 import M4riProofs.Gauss
 import M4riProofs.GaussMathlib
+import M4riProofs.M4riElim
 namespace M4ri.Props.C02
 open M4ri M4ri.BMat
 
@@ -59,6 +60,35 @@ theorem checker_sound_mathlib_partial {A R : BMat} (hA : A.WF) (hR : R.WF) (r : 
 /-- the checker is not vacuous: it accepts the naive routine's own output -/
 theorem checker_accepts_naive {A : BMat} (hA : A.WF) (full : Bool) :
     checkEchelon A (gaussDelayed A 0 full).1 (gaussDelayed A 0 full).2 full = true := checkEchelon_gauss hA full
+
+/-- **M4RI** (`_mzd_echelonize_m4ri`, exact step-by-step mirror `M4RI.echelonizeM4ri`, compared bit-for-bit with the C
+    library incl. its non-reduced outputs): for every well-formed A, EVERY table parameter k ≥ 1, every heap junk,
+    both values of `full`: row space preserved, row echelon form, returned value = rank(A), zero rows last, and with
+    full reduction exactly the unique RREF. -/
+theorem m4ri_correct {A : BMat} (hA : A.WF) (full : Bool) {k : Nat} (hk : 1 ≤ k) (junk : Nat → Nat) :
+    (M4RI.echelonizeM4ri A full k junk).1.WF ∧ (M4RI.echelonizeM4ri A full k junk).1.nrows = A.nrows ∧
+    (M4RI.echelonizeM4ri A full k junk).1.ncols = A.ncols ∧ SameSpan A (M4RI.echelonizeM4ri A full k junk).1 ∧
+    (M4RI.echelonizeM4ri A full k junk).1.isRowEchelon = true ∧ (M4RI.echelonizeM4ri A full k junk).2 = A.rank ∧
+    (∀ i, (M4RI.echelonizeM4ri A full k junk).2 ≤ i → (M4RI.echelonizeM4ri A full k junk).1.row i = 0) ∧
+    (full = true → (M4RI.echelonizeM4ri A full k junk).1 = A.rref) ∧
+    checkEchelon A (M4RI.echelonizeM4ri A full k junk).1 (M4RI.echelonizeM4ri A full k junk).2 full = true :=
+  M4RI.echelonizeM4ri_correct hA full hk junk
+
+/-- completing a row echelon form with the top-reduction routine gives the same RREF -/
+theorem top_reduction_of_echelon_form {A : BMat} (hA : A.WF) (hE : A.isRowEchelon = true) {k : Nat} (hk : 1 ≤ k)
+    (junk : Nat → Nat) :
+    (M4RI.topEchelonizeM4ri A k 0 0 A.nrows junk).1 = A.rref ∧ (M4RI.topEchelonizeM4ri A k 0 0 A.nrows junk).2 = A.rank :=
+  M4RI.topEchelonizeM4ri_of_isRowEchelon hA hE hk junk
+
+theorem m4ri_then_top_reduction {A : BMat} (hA : A.WF) {k k' : Nat} (hk : 1 ≤ k) (hk' : 1 ≤ k') (junk junk' : Nat → Nat) :
+    (M4RI.topEchelonizeM4ri (M4RI.echelonizeM4ri A false k junk).1 k' 0 0 A.nrows junk').1 = A.rref ∧
+    (M4RI.topEchelonizeM4ri (M4RI.echelonizeM4ri A false k junk).1 k' 0 0 A.nrows junk').2 = A.rank :=
+  M4RI.topEchelonizeM4ri_echelonizeM4ri hA hk hk' junk junk'
+
+/-- all algorithms agree when `full`: both mirrors return THE RREF -/
+theorem naive_and_m4ri_agree {A : BMat} (hA : A.WF) {k : Nat} (hk : 1 ≤ k) (junk : Nat → Nat) :
+    (M4RI.echelonizeM4ri A true k junk).1 = (gaussDelayed A 0 true).1 :=
+  (M4RI.echelonizeM4ri_correct hA true hk junk).2.2.2.2.2.2.2.1 rfl
 
 /-- full statement that is NOT proved for the Four-Russians / PLUQ-based routines (no step-by-step model):
     for an exact mirror `ech` of such a routine, `checkEchelon A (ech A full).1 (ech A full).2 full = true`. -/
